@@ -13,7 +13,10 @@ import (
 	"verifharness/c05"
 	"verifharness/c06"
 	"verifharness/c07"
+	"verifharness/c09"
 	"verifharness/c10"
+	"verifharness/c16"
+	"verifharness/c17"
 	"verifharness/c18"
 	"verifharness/nd"
 )
@@ -24,6 +27,9 @@ type entry struct {
 }
 
 var registry = map[string]entry{
+	"c17.RunHTML":        {c17.Setup, c17.RunHTML},
+	"c09.RunXML":         {c09.Setup, c09.RunXML},
+	"c16.RunJSON":        {c16.Setup, c16.RunJSON},
 	"c10.RunContract":    {c10.Setup, c10.RunContract},
 	"c10.RunStack":       {c10.Setup, c10.RunStack},
 	"c07.RunSearch":      {c07.Setup, c07.RunSearch},
